@@ -342,6 +342,10 @@ func (x *Exec) checkPost(st *State, ret *ssa.Return, rs []Val) {
 			}
 			renv := x.refineEnv(st, x.top, is, entryArgs, rs)
 			for _, c := range is.Ensures {
+				if containsStr(c.Tags, "ghostdef") {
+					// the clause defines the new value of an unmodelled ghost field: always realizable
+					continue
+				}
 				g := x.evalClause(st, renv, c, is)
 				x.oblige(st, fmt.Sprintf("%s/refine@%s#%d", x.qname, rname, c.Ord), "refine", g, "refines "+rname+": "+c.Text, fmt.Sprintf("%s:%d", c.File, c.Line), nil)
 			}
@@ -417,6 +421,9 @@ func (x *Exec) evalAssignTarget(env *Env, c *Clause, spec *FuncSpec) (locs []ass
 		}
 		if strings.HasPrefix(t.Sel, "$") {
 			if m, dt, ref := env.ghostModel(b, t.Sel); m != nil {
+				if _, isPtr := dt.Underlying().(*types.Pointer); !isPtr {
+					return nil // a constant model of a value type: nothing to assign
+				}
 				// assigning a model-defined ghost field means assigning the fields its definition reads
 				elem := dt.Underlying().(*types.Pointer).Elem()
 				sty := elem.Underlying().(*types.Struct)
